@@ -426,6 +426,7 @@ type hSet struct {
 
 var hVerifies [2]bool // does the credential verify under authorised key i
 var hTheToken *hToken
+var hTheSecs hTokenSecs
 var hJWTParseArgs []string
 var hJWTParseKeys []int
 var hTimeValid bool
@@ -443,6 +444,10 @@ func hJWTParseString(s string, options ...jwt.ParseOption) (jwt.Token, error) {
 	}
 	hJWTParseKeys = append(hJWTParseKeys, key)
 	if key >= 0 && hVerifies[key] {
+		if hTheToken == nil {
+			// the claims are drawn when the code first gets to see them (keeps refused-earlier paths cheap)
+			hTheToken, hTheSecs = hCompToken()
+		}
 		return hTheToken, nil
 	}
 	return nil, errors.New("harness: could not verify message using any of the signatures or keys")
@@ -463,73 +468,127 @@ func hJWTValidate(t jwt.Token, options ...jwt.ValidateOption) error {
 	return nil
 }
 
-func H04d() {
-	// --- configuration: skipper, audience, 0..2 authorised keys with arbitrary one-byte user names
-	var skipVerdict, skipperAsked bool
-	m := middlewareImpl{}
-	if vBool() {
-		vTag("skip")
-		skipVerdict = vBool()
-		m.skipper = func(echo.Context) bool { skipperAsked = true; return skipVerdict }
-	}
-	vTag("audience")
-	m.audience = vString(1)
-	nk := vLen(0, vParam("keys", 2))
-	for i := 0; i < nk; i++ {
-		vTag("comment")
-		m.authorizedKeys = append(m.authorizedKeys, authorizedKey{keyID: "k", comment: vString(1), jwkSet: &hSet{id: i}})
-		vTag("verifies")
-		hVerifies[i] = vBool()
-	}
-	// --- request: Authorization header absent, foreign scheme, malformed, or a bearer credential
-	var ctx *hCtx
-	bearer := false
-	switch vChoice(4) {
+// hCompToken draws the token for the composition harness: at most one mandatory claim missing, nbf = iat,
+// exp exactly at or one second beyond the 24.5 h limit, sub empty or one byte, arbitrary one-byte issuer,
+// 0..2 one-byte audiences. (H04c covers bestPracticesCheck for arbitrary tokens.)
+func hCompToken() (*hToken, hTokenSecs) {
+	t := &hToken{hasJti: true, hasIat: true, hasExp: true, hasNbf: true, hasAud: true, hasIss: true, hasSub: true}
+	switch vChoice(8) {
 	case 0:
-		ctx = hCtxWithAuthorization()
+		t.hasJti = false
 	case 1:
-		ctx = hCtxWithAuthorization("Basic tok")
+		t.hasIat = false
 	case 2:
-		ctx = hCtxWithAuthorization("Bearer tok tok")
+		t.hasExp = false
 	case 3:
-		ctx = hCtxWithAuthorization("bEARER \ttok")
-		bearer = true
+		t.hasNbf = false
+	case 4:
+		t.hasAud = false
+	case 5:
+		t.hasIss = false
+	case 6:
+		t.hasSub = false
 	}
-	// --- what jwx reports about the credential
-	vTag("parseFails")
-	hJWSFail = vBool()
-	ns := vLen(0, vParam("maxsigs", 2))
-	sigsClean := true
-	for i := 0; i < ns; i++ {
-		h := &hHeaders{alg: "ES256"}
-		if vBool() {
-			h.alg = "HS256"
-			sigsClean = false
-		}
-		vTag("hasJWK")
-		h.hasJWK = vBool()
-		if h.hasJWK {
-			sigsClean = false
-		}
-		hJWSSigs = append(hJWSSigs, h)
+	sec := hTokenSecs{iat: 1000, nbf: 1000, exp: 1000 + hMaxLifetimeSec}
+	if vBool() {
+		sec.exp++
 	}
-	tok, sec := hSymToken()
-	tok.aud = nil
+	t.iat = time.Unix(sec.iat, 0).UTC()
+	t.exp = time.Unix(sec.exp, 0).UTC()
+	t.nbf = time.Unix(sec.nbf, 0).UTC()
+	t.jti = "j"
+	vTag("sub")
+	t.sub = vString(vLen(0, 1))
+	vTag("iss")
+	t.iss = vString(1)
 	na := vLen(0, 2)
-	audOK := false
 	for i := 0; i < na; i++ {
 		vTag("aud")
-		a := vString(1)
-		tok.aud = append(tok.aud, a)
-		if a == m.audience {
-			audOK = true
-		}
+		t.aud = append(t.aud, vString(1))
 	}
-	hTheToken = tok
-	vTag("jtiIsUUID")
-	hUUIDOK = vBool()
-	vTag("timeValid")
-	hTimeValid = vBool()
+	return t, sec
+}
+
+func H04d() {
+	m := middlewareImpl{}
+	var ctx *hCtx
+	var tok *hToken
+	var sec hTokenSecs
+	var skipVerdict, skipperAsked bool
+	nk, ns := 0, 0
+	bearer, sigsClean := false, true
+
+	// everything valid: one key "u", one clean ES256 signature, conforming token issued by "u" for "a"
+	allValid := func() {
+		m.audience = "a"
+		m.authorizedKeys = []authorizedKey{{keyID: "k", comment: "u", jwkSet: &hSet{id: 0}}}
+		nk, ns = 1, 1
+		hVerifies[0] = true
+		hJWSSigs = []*hHeaders{{alg: "ES256"}}
+		tok = &hToken{hasJti: true, hasIat: true, hasExp: true, hasNbf: true, hasAud: true, hasIss: true, hasSub: true, jti: "j", iss: "u", sub: "s", aud: []string{"a"}}
+		sec = hTokenSecs{iat: 1000, nbf: 1000, exp: 2000}
+		tok.iat, tok.nbf, tok.exp = time.Unix(1000, 0).UTC(), time.Unix(1000, 0).UTC(), time.Unix(2000, 0).UTC()
+		hUUIDOK, hTimeValid = true, true
+	}
+
+	mode := vChoice(6)
+	switch mode {
+	case 0: // skipper says skip: request without any credential
+		vCover("mode-skip")
+		skipVerdict = true
+		m.skipper = func(echo.Context) bool { skipperAsked = true; return skipVerdict }
+		allValid()
+		ctx = hCtxWithAuthorization()
+	case 1, 2, 3: // everything valid except the Authorization header
+		vCover("mode-bad-header")
+		allValid()
+		switch mode {
+		case 1:
+			ctx = hCtxWithAuthorization()
+		case 2:
+			ctx = hCtxWithAuthorization("Basic tok")
+		case 3:
+			ctx = hCtxWithAuthorization("Bearer tok tok")
+		}
+	case 4, 5: // bearer credential; everything jwx reports about it is arbitrary
+		vCover("mode-bearer")
+		if mode == 5 {
+			m.skipper = func(echo.Context) bool { skipperAsked = true; return false }
+		}
+		ctx = hCtxWithAuthorization("bEARER \ttok")
+		bearer = true
+		vTag("audience")
+		m.audience = vString(1)
+		nk = vLen(0, vParam("keys", 2))
+		for i := 0; i < nk; i++ {
+			vTag("comment")
+			m.authorizedKeys = append(m.authorizedKeys, authorizedKey{keyID: "k", comment: vString(1), jwkSet: &hSet{id: i}})
+			vTag("verifies")
+			hVerifies[i] = vBool()
+		}
+		vTag("parseFails")
+		hJWSFail = vBool()
+		ns = vLen(0, vParam("maxsigs", 2))
+		for i := 0; i < ns; i++ {
+			// alg is ES256 or HS256 (first byte symbolic, no fork here), jwk present or not
+			vTag("mac")
+			mac := vBool()
+			c := byte('E')
+			if mac {
+				c = 'H'
+			}
+			h := &hHeaders{alg: string([]byte{c, 'S', '2', '5', '6'})}
+			vTag("hasJWK")
+			h.hasJWK = vBool()
+			sigsClean = sigsClean && !mac && !h.hasJWK
+			hJWSSigs = append(hJWSSigs, h)
+		}
+		vTag("jtiIsUUID")
+		hUUIDOK = vBool()
+		vTag("timeValid")
+		hTimeValid = vBool()
+	}
+	hTheToken, hTheSecs = tok, sec
 
 	nextCalls := 0
 	next := func(c echo.Context) error {
@@ -546,11 +605,26 @@ func H04d() {
 		vAssert(len(hJWTParseArgs) == 0, "H04d.skip_no_verification: skipped request was verified anyway")
 		return
 	}
+	vAssert(m.skipper == nil || skipperAsked, "H04d.skipper_consulted: configured skipper was not consulted")
 	// first authorised key under which the credential verifies
 	signer := -1
 	for i := nk - 1; i >= 0; i-- {
 		if hVerifies[i] {
 			signer = i
+		}
+	}
+	tok, sec = hTheToken, hTheSecs
+	if tok == nil {
+		// the code never obtained a verified token
+		vCover("denied-before-verification")
+		vAssert(nextCalls == 0, "H04d.no_grant_without_token: handler reached although no token was verified")
+		vAssert(!(bearer && !hJWSFail && ns >= 1 && sigsClean && signer >= 0), "H04d.verifiable_token_verified: a hygienic credential that verifies under an authorised key was refused before verification")
+		tok = &hToken{}
+	}
+	audOK := false
+	for _, a := range tok.aud {
+		if a == m.audience {
+			audOK = true
 		}
 	}
 	good := bearer && !hJWSFail && ns >= 1 && sigsClean && signer >= 0 && hTimeValid && audOK &&
